@@ -3,11 +3,26 @@ import ScionVerif.Lemmas.AddrText
 # C15 — address and identifier text forms round-trip, reject the rest, never panic
 
 Property theorems over the model `Model/AddrText.lean` (separators, widths and name tables from
-`Generated/Addr.lean`, i.e. from the Rust source as it is now).  Helper lemmas are in `Lemmas/AddrText.lean`.
-Per type: `…_parse_show` (parsing the displayed form of every value yields the value), `…_total` (no string
-makes the parser panic) and `…_accept_only_spellings` (an accepted string is a spelling of the returned
-value – see the `…Sp` predicates: the displayed form up to the documented alternatives and the variants
-of Rust's integer grammar; a spelling accounts for *every* character of the string).
+`Generated/Addr.lean`, i.e. from the Rust source as it is now).  Generic helper lemmas (digits, `str`
+primitives, white space, table facts) are in `Lemmas/AddrText.lean`.
+
+Per type – ISD, AS, ISD-AS, service, host, SCION address (`ScionAddr`, `ScionIpAddr`, the per-variant
+structs), SCION socket address (`ScionSocketAddr`, `ScionSocketIpAddr`, the per-variant structs), DNS TXT payload:
+
+* `…_parse_show`: for **every value** of the type, parsing its displayed form yields that value;
+* `…_total`: for **every string**, the parser does not reach a panic site (stated for the parsers whose Rust
+  code contains one: `expect`, slices, the loop; the others are `Option`-valued by construction);
+* `…_accept_only_spellings`: for **every string**, if it is accepted then it is a *spelling* of the returned
+  value.  The `…Sp` predicates define spellings declaratively and account for **every character** of the
+  string: the displayed form up to the documented alternatives (decimal AS below 2^32 / colon-hex, `_A`,
+  the numeric service form, TXT white space, whatever std reads as that IP address) and the variants Rust's
+  integer grammar admits (`+`, leading zeros, upper-case hex – an explicit decision of DESIGN §5 C15).  So
+  nothing before, between or after is silently dropped.
+
+The layers build on each other (the host theorems use the service theorems, …), which is why the stepping
+stones between them live in this file too; the property theorems proper are the ones listed in
+`checks/C15.json`.  IPv4 / IPv6 text is std's and enters through the parameter `C : HostCodec` with the
+explicit hypothesis `C.Lawful` (satisfiable: `toyCodec_lawful`; checked on std itself by the harness).
 -/
 namespace ScionVerif.AddrText
 open ScionVerif.Generated.Addr
@@ -104,19 +119,6 @@ example : parseAsn "4294967296".toList = none ∧ parseAsn "0:0:0:0".toList = no
 def IsdAsnSp (v : Nat) (s : Str) : Prop :=
   ∃ i a si sa, i < 2 ^ ISD_BITS ∧ a ≤ ASN_MAX ∧ v = mkIa i a ∧ s = si ++ IA_SEP :: sa ∧ IsdSp i si ∧ AsnSp a sa
 
-theorem ia_sep_not_in_isd (n : Nat) : IA_SEP ∉ showIsd n := fun hm => by
-  have := showNat_chars (by omega) n _ hm; revert this; decide
-
-theorem ia_sep_not_in_asn (v : Nat) : IA_SEP ∉ showAsn v := by
-  unfold showAsn
-  have hn : ∀ r n, 2 ≤ r → IA_SEP ∉ showNat r n := fun r n hr hm => by
-    have := showNat_chars hr n _ hm; revert this; decide
-  split
-  · exact hn _ _ (by omega)
-  · rw [showAsn_hex]
-    simp only [List.mem_append, List.mem_cons, not_or]
-    exact ⟨hn _ _ (by omega), by decide, hn _ _ (by omega), by decide, hn _ _ (by omega)⟩
-
 theorem isdAsn_parse_show (v : Nat) (hv : v < 2 ^ IA_BITS) : parseIsdAsn (showIsdAsn v) = .ok v := by
   unfold parseIsdAsn showIsdAsn
   have hcount : (((showIsd (v / 2 ^ ASN_BITS) ++ [IA_SEP] ++ showAsn (v % 2 ^ ASN_BITS)).filter (· == IA_SEP)).take 2).length = 1 := by
@@ -178,47 +180,6 @@ def SvcSp (v : Nat) (s : Str) : Prop :=
   ∃ a base, a < SVC_MULTICAST_FLAG ∧ SvcBaseSp a base ∧
     ((v = a ∧ (s = base ∨ s = base ++ SVC_SUFFIX_SEP :: SVC_SUFFIX_ANYCAST)) ∨
      (v = a + SVC_MULTICAST_FLAG ∧ s = base ++ SVC_SUFFIX_SEP :: SVC_SUFFIX_MULTICAST))
-
-theorem lookupValue_mem : ∀ {tab : List (Str × Nat)} {v : Nat} {n : Str}, lookupValue tab v = some n → (n, v) ∈ tab
-  | [], _, _, h => by simp [lookupValue] at h
-  | (n', w) :: rest, v, n, h => by
-    unfold lookupValue at h
-    split at h
-    · next hw => cases h; subst hw; simp
-    · exact List.mem_cons_of_mem _ (lookupValue_mem h)
-
-theorem lookupName_mem : ∀ {tab : List (Str × Nat)} {s : Str} {v : Nat}, lookupName tab s = some v → (s, v) ∈ tab
-  | [], _, _, h => by simp [lookupName] at h
-  | (n', w) :: rest, s, v, h => by
-    unfold lookupName at h
-    split at h
-    · next hn => cases h; subst hn; simp
-    · exact List.mem_cons_of_mem _ (lookupName_mem h)
-
-theorem lookupName_none : ∀ {tab : List (Str × Nat)} {s : Str}, (∀ p ∈ tab, p.1 ≠ s) → lookupName tab s = none
-  | [], _, _ => rfl
-  | (n', w) :: rest, s, h => by
-    unfold lookupName
-    rw [if_neg (h (n', w) (by simp))]
-    exact lookupName_none (fun p hp => h p (List.mem_cons_of_mem _ hp))
-
-/-- facts about the extracted tables that the round trip needs (re-checked when the tables change) -/
-theorem svc_tables_ok :
-    (∀ p ∈ SVC_SHOW_NAMES, lookupName SVC_PARSE_NAMES p.1 = some p.2 ∧ SVC_SUFFIX_SEP ∉ p.1 ∧ p.2 < SVC_MULTICAST_FLAG) ∧
-    (∀ p ∈ SVC_PARSE_NAMES, p.1.head? ≠ SVC_HEX_OPEN.head? ∧ p.2 < SVC_MULTICAST_FLAG) ∧
-    SVC_PARSE_HEX_OPEN = SVC_HEX_OPEN ∧ SVC_PARSE_HEX_CLOSE = SVC_HEX_CLOSE ∧
-    SVC_SUFFIX_SEP ∉ SVC_HEX_OPEN ∧ SVC_SUFFIX_SEP ∉ SVC_HEX_CLOSE ∧ SVC_SUFFIX_SEP ∉ lowerDigits ∧
-    SVC_SUFFIX_ANYCAST ≠ SVC_SUFFIX_MULTICAST ∧ SVC_HEX_OPEN ≠ [] ∧
-    SVC_PARSE_HEX_RADIX = 16 ∧ SVC_PARSE_HEX_BITS = 16 ∧ SVC_BITS = 16 ∧ SVC_MULTICAST_FLAG = 2 ^ 15 ∧
-    SVC_HEX_WIDTH = 4 := by decide
-
-theorem svc_flag_facts (v : Nat) (hv : v < 2 ^ SVC_BITS) :
-    toAnycast v < SVC_MULTICAST_FLAG ∧ isMulticast (toAnycast v) = false ∧
-    (isMulticast v = true → toAnycast v + SVC_MULTICAST_FLAG = v) ∧ (isMulticast v = false → toAnycast v = v) := by
-  simp only [toAnycast, isMulticast, SVC_MULTICAST_FLAG, SVC_BITS] at *
-  by_cases h : v / 32768 % 2 = 1
-  · simp [h]; omega
-  · simp [h]; omega
 
 theorem parseSvcBase_showSvcBase (a : Nat) (ha : a < SVC_MULTICAST_FLAG) :
     SVC_SUFFIX_SEP ∉ showSvcBase a ∧ parseSvcBase (showSvcBase a) = some a := by
@@ -461,18 +422,6 @@ def ScionAddr.Valid (a : ScionAddr) : Prop := a.ia < 2 ^ IA_BITS ∧ a.host.Vali
 /-- spellings of a SCION address: `isd-as "," host` -/
 def AddrSp (C : HostCodec) (a : ScionAddr) (s : Str) : Prop :=
   ∃ sia sh, s = sia ++ ADDR_SEP :: sh ∧ IsdAsnSp a.ia sia ∧ HostSp C a.host sh
-
-theorem addr_sep_not_in_ia (v : Nat) : ADDR_SEP ∉ showIsdAsn v := by
-  have hn : ∀ r n, 2 ≤ r → ADDR_SEP ∉ showNat r n := fun r n hr hm => by
-    have := showNat_chars hr n _ hm; revert this; decide
-  unfold showIsdAsn showIsd showAsn
-  simp only [List.mem_append, not_or]
-  refine ⟨⟨hn _ _ (by omega), by decide⟩, ?_⟩
-  split
-  · exact hn _ _ (by omega)
-  · rw [showAsn_hex]
-    simp only [List.mem_append, List.mem_cons, not_or]
-    exact ⟨hn _ _ (by omega), by decide, hn _ _ (by omega), by decide, hn _ _ (by omega)⟩
 
 theorem parseScionAddrT_total {α : Type} (ph : Str → Option α) (s : Str) : parseScionAddrT ph s ≠ .panic := by
   unfold parseScionAddrT
@@ -800,96 +749,50 @@ theorem socketIpAddr_accept_only_spellings (C : HostCodec) (hC : C.Lawful) (s : 
     · cases hp
     · cases hp
 
+/-! ## the per-variant types `ScionAddrV4/V6/Svc`, `ScionSocketAddrV4/V6/Svc`
+
+Their `from_str` is `parse_scion_addr::<T>` / `parse_socket_addr::<ScionAddrT>` for one host parser `ph`
+(`Ipv4Addr`, `Ipv6Addr` or `ServiceAddr`); the theorems are generic in `ph`. -/
+
+theorem scionAddrVariant_parse_show {α : Type} (ph : Str → Option α) (ia : Nat) (hia : ia < 2 ^ IA_BITS)
+    (hostText : Str) (x : α) (hx : ph hostText = some x) :
+    parseScionAddrT ph (showIsdAsn ia ++ [ADDR_SEP] ++ hostText) = .ok (ia, x) := by
+  rw [parseScionAddrT_shown ph ia hia, hx]
+
+theorem scionAddrVariant_total {α : Type} (ph : Str → Option α) (s : Str) : parseScionAddrT ph s ≠ .panic :=
+  parseScionAddrT_total ph s
+
+theorem scionAddrVariant_accept_only_spellings {α : Type} (ph : Str → Option α) (s : Str) (ia : Nat) (x : α)
+    (h : parseScionAddrT ph s = .ok (ia, x)) :
+    ∃ sia sh, s = sia ++ ADDR_SEP :: sh ∧ IsdAsnSp ia sia ∧ ph sh = some x ∧ ia < 2 ^ IA_BITS := by
+  obtain ⟨a, b, rfl, hia, hh⟩ := parseScionAddrT_ok_inv h
+  obtain ⟨sp, hr⟩ := isdAsn_accept_only_spellings _ _ hia
+  exact ⟨a, b, rfl, sp, hh, hr⟩
+
+theorem socketAddrVariant_parse_show {α : Type} (ph : Str → Option α) (ia : Nat) (hia : ia < 2 ^ IA_BITS)
+    (hostText : Str) (x : α) (hx : ph hostText = some x) (port : Nat) (hp : port < 2 ^ PORT_BITS) :
+    parseSocketT (parseScionAddrT ph)
+      ([SOCK_OPEN] ++ (showIsdAsn ia ++ [ADDR_SEP] ++ hostText) ++ [SOCK_CLOSE] ++ [PORT_SEP] ++ showNat 10 port) =
+      .ok ((ia, x), port) := by
+  rw [parseSocketT_shown _ _ port hp, parseScionAddrT_shown ph ia hia, hx]
+
+theorem socketAddrVariant_total {α : Type} (ph : Str → Option α) (s : Str) :
+    parseSocketT (parseScionAddrT ph) s ≠ .panic :=
+  parseSocketT_total _ (parseScionAddrT_total ph) s
+
+theorem socketAddrVariant_accept_only_spellings {α : Type} (ph : Str → Option α) (s : Str) (ia : Nat) (x : α) (p : Nat)
+    (h : parseSocketT (parseScionAddrT ph) s = .ok ((ia, x), p)) :
+    ∃ sia sh sp, s = SOCK_OPEN :: ((sia ++ ADDR_SEP :: sh) ++ SOCK_CLOSE :: PORT_SEP :: sp) ∧
+      IsdAsnSp ia sia ∧ ph sh = some x ∧ NumSp 10 p sp ∧ ia < 2 ^ IA_BITS ∧ p < 2 ^ PORT_BITS := by
+  obtain ⟨inner, ps, rfl, hin, hport⟩ := parseSocketT_ok_inv h
+  obtain ⟨a, b, rfl, hia, hh⟩ := parseScionAddrT_ok_inv hin
+  obtain ⟨sp, hr⟩ := isdAsn_accept_only_spellings _ _ hia
+  obtain ⟨psp, plt⟩ := parseUInt_spelling (Or.inl rfl) hport
+  exact ⟨a, b, ps, rfl, sp, hh, psp, hr, plt⟩
+
+example : parseSocketT (parseScionAddrT stdCodec.parse6) "[1-ff00:0:110,::1]:80".toList = .ok ((0x1ff0000000110, 1), 80) := by decide
+
 /-! ## DNS TXT address records -/
-
-def Ws (w : Str) : Prop := ∀ c ∈ w, isWhitespace c = true
-def NoWs (s : Str) : Prop := ∀ c ∈ s, isWhitespace c = false
-
-theorem Ws.nil : Ws [] := by intro c hc; cases hc
-theorem Ws.append {a b : Str} (ha : Ws a) (hb : Ws b) : Ws (a ++ b) := by
-  intro c hc; rcases List.mem_append.mp hc with h | h
-  · exact ha c h
-  · exact hb c h
-
-theorem trimStart_decomp : ∀ (s : Str), ∃ w, Ws w ∧ s = w ++ trimStart s
-  | [] => ⟨[], Ws.nil, rfl⟩
-  | c :: cs => by
-    unfold trimStart
-    by_cases h : isWhitespace c = true
-    · obtain ⟨w, hw, he⟩ := trimStart_decomp cs
-      refine ⟨c :: w, ?_, ?_⟩
-      · intro x hx; rcases List.mem_cons.mp hx with rfl | hx
-        · exact h
-        · exact hw x hx
-      · rw [List.dropWhile_cons_of_pos h]; unfold trimStart at he; rw [List.cons_append, ← he]
-    · exact ⟨[], Ws.nil, by rw [List.dropWhile_cons_of_neg h]; rfl⟩
-
-theorem trimEnd_decomp (s : Str) : ∃ w, Ws w ∧ s = trimEnd s ++ w := by
-  unfold trimEnd
-  obtain ⟨w, hw, he⟩ := trimStart_decomp s.reverse
-  refine ⟨w.reverse, fun c hc => hw c (by simpa using hc), ?_⟩
-  have := congrArg List.reverse he
-  simpa using this
-
-theorem trim_decomp (s : Str) : ∃ w1 w2, Ws w1 ∧ Ws w2 ∧ s = w1 ++ trim s ++ w2 := by
-  obtain ⟨w1, h1, e1⟩ := trimStart_decomp s
-  obtain ⟨w2, h2, e2⟩ := trimEnd_decomp (trimStart s)
-  exact ⟨w1, w2, h1, h2, by unfold trim; rw [List.append_assoc, ← e2, ← e1]⟩
-
-theorem trimStart_noWs {s : Str} (h : NoWs s) : trimStart s = s := by
-  cases s with
-  | nil => rfl
-  | cons c cs =>
-    unfold trimStart
-    rw [List.dropWhile_cons_of_neg (by simp [h c (by simp)])]
-
-theorem trim_noWs {s : Str} (h : NoWs s) : trim s = s := by
-  unfold trim trimEnd
-  rw [trimStart_noWs h, trimStart_noWs (fun c hc => h c (by simpa using hc))]
-  simp
-
-theorem trim_length_le (s : Str) : (trim s).length ≤ s.length := by
-  obtain ⟨w1, w2, _, _, e⟩ := trim_decomp s
-  have := congrArg List.length e
-  simp at this; omega
-
-theorem find_some {c : Char} : ∀ {s : Str} {i : Nat}, find c s = some i →
-    s = s.take i ++ c :: s.drop (i + 1) ∧ c ∉ s.take i
-  | [], i, h => by simp [find] at h
-  | x :: xs, i, h => by
-    unfold find at h
-    split at h
-    · next hx => cases h; subst hx; simp
-    · next hx =>
-      split at h
-      · next j hj =>
-        cases h
-        obtain ⟨h1, h2⟩ := find_some hj
-        refine ⟨by simp only [List.take_succ_cons, List.drop_succ_cons, List.cons_append]; rw [← h1], ?_⟩
-        simp only [List.take_succ_cons, List.mem_cons, not_or]
-        exact ⟨fun h => hx h.symm, h2⟩
-      · cases h
-
-theorem find_append {c : Char} : ∀ {a b : Str}, c ∉ a → find c (a ++ c :: b) = some a.length
-  | [], b, _ => by simp [find]
-  | x :: xs, b, h => by
-    have hx : x ≠ c := by intro hx; subst hx; exact h (by simp)
-    have ht : c ∉ xs := fun hm => h (by simp [hm])
-    simp [find, hx, find_append ht]
-
-theorem txt_consts : TXT_OPEN ≠ TXT_CLOSE ∧ TXT_ENTRY_SEP = ADDR_SEP ∧ TXT_OPEN = SOCK_OPEN ∧ TXT_CLOSE = SOCK_CLOSE := by decide
-
-theorem startsWith_iff {c : Char} {s : Str} : startsWith c s = true ↔ ∃ t, s = c :: t := by
-  cases s with
-  | nil => simp [startsWith]
-  | cons x xs =>
-    constructor
-    · intro h
-      have : x = c := by simpa [startsWith] using h
-      exact ⟨xs, by rw [this]⟩
-    · intro ⟨t, ht⟩
-      cases ht
-      simp [startsWith]
 
 theorem parseTxtLoop_total (C : HostCodec) : ∀ (fuel : Nat) (remaining : Str), remaining.length < fuel →
     parseTxtLoop C fuel remaining ≠ .panic := by
@@ -976,12 +879,6 @@ theorem parseIp_sp {C : HostCodec} (hC : C.Lawful) {s : Str} {h : Host} (hp : pa
   · split at hp
     · next a h6 => cases hp; exact ⟨h6, hC.range6 _ _ h6, by simp⟩
     · cases hp
-
-theorem take_cons_drop_one {c : Char} {t : Str} {k : Nat} (hk : ¬ k < 1) :
-    (c :: t).take k = c :: ((c :: t).take k).drop 1 := by
-  cases k with
-  | zero => omega
-  | succ k => simp
 
 theorem txt_entry_sp {C : HostCodec} (hC : C.Lawful) {t : Str} {closeIdx : Nat} {ias hs : Str} {ia : Nat} {h : Host}
     (hfind : find TXT_CLOSE (TXT_OPEN :: t) = some closeIdx) (hge : ¬ closeIdx < 1)
@@ -1092,26 +989,6 @@ theorem txt_accept_only_spellings (C : HostCodec) (hC : C.Lawful) (s : Str) (l :
 def txtAlphabet : Str := lowerDigits ++ ipv6Alphabet ++ [TXT_OPEN, TXT_CLOSE, TXT_ENTRY_SEP, TXT_LIST_SEP, IA_SEP, ASN_SEP]
 
 theorem txtAlphabet_noWs : ∀ c ∈ txtAlphabet, isWhitespace c = false := by decide
-
-theorem showIsdAsn_chars (v : Nat) : ∀ c ∈ showIsdAsn v, c ∈ lowerDigits ∨ c = IA_SEP ∨ c = ASN_SEP := by
-  have hn : ∀ r n, 2 ≤ r → ∀ c ∈ showNat r n, c ∈ lowerDigits ∨ c = IA_SEP ∨ c = ASN_SEP :=
-    fun r n hr c hc => Or.inl (showNat_chars hr n c hc)
-  intro c hc
-  unfold showIsdAsn showIsd showAsn at hc
-  simp only [List.mem_append, List.mem_singleton] at hc
-  rcases hc with (hc | hc) | hc
-  · exact hn _ _ (by omega) c hc
-  · exact Or.inr (Or.inl hc)
-  · split at hc
-    · exact hn _ _ (by omega) c hc
-    · rw [showAsn_hex] at hc
-      simp only [List.mem_append, List.mem_cons] at hc
-      rcases hc with hc | hc | hc | hc | hc
-      · exact hn _ _ (by omega) c hc
-      · exact Or.inr (Or.inr hc)
-      · exact hn _ _ (by omega) c hc
-      · exact Or.inr (Or.inr hc)
-      · exact hn _ _ (by omega) c hc
 
 theorem showIpHost_chars {C : HostCodec} (hC : C.Lawful) {h : Host} (hv : h.Valid) (hip : ∀ v, h ≠ .svc v) :
     ∀ c ∈ showHost C h, c ∈ ipv6Alphabet := by
